@@ -97,7 +97,7 @@ pub fn trivia_run(rng: &mut Rng, lay: &Layout, after: Option<(K, &str)>, uid: &m
 /// trailing trivia are replaced too (possibly from empty).  Returns None when the text
 /// has a lexical fault or contains a backtick (directive lines are layout sensitive).
 pub fn relayout(text: &str, rng: &mut Rng, lay: &Layout) -> Option<String> {
-    let (toks, fault) = lexer::lex(text);
+    let (toks, fault) = lexer::lex_mode(text, true);
     if fault.is_some() {
         return None;
     }
